@@ -45,7 +45,7 @@ def cmd_verify(name):
     sh("git -C %s worktree remove --force %s" % (REPO, wt))
     rc, out = sh("git -C %s worktree add -q --detach %s HEAD" % (REPO, wt))
     assert rc == 0, out
-    env = dict(ENV, CARGO_TARGET_DIR=wt + "/target")
+    env = dict(ENV, CARGO_TARGET_DIR="/tmp/ver-target")
     res = {}
     try:
         feats = meta.get("features") or ""
